@@ -128,7 +128,23 @@ func (db *Backend) ListBucket(name string, prefix *gofakes3.Prefix, page gofakes
 		cnt++
 		if page.MaxKeys > 0 && cnt >= page.MaxKeys {
 			response.NextMarker = item.data.name
-			response.IsTruncated = iter.Next()
+			more := iter.Next()
+			if match.CommonPrefix {
+				// The keys that follow may be covered by the common prefix that
+				// was just reported; the next page must start after the last of
+				// them, otherwise it reports the same prefix again.
+				for more {
+					next := iter.Value().(*bucketObject)
+					var nextMatch gofakes3.PrefixMatch
+					if !prefix.Match(next.data.name, &nextMatch) || !nextMatch.CommonPrefix ||
+						nextMatch.MatchedPart != lastMatchedPart {
+						break
+					}
+					response.NextMarker = next.data.name
+					more = iter.Next()
+				}
+			}
+			response.IsTruncated = more
 			break
 		}
 	}
